@@ -438,7 +438,20 @@ impl Ctx {
     /// Workload size: `q` in the quick tier, `t` in the thorough tier; divided by
     /// `dbg_div` in the unoptimised profile (which is 10-40x slower) and by 2000 under Miri.
     pub fn size(&self, q: u64, t: u64, dbg_div: u64) -> u64 {
-        let n = if self.quick() { q } else { t };
+        // The modules were sized while a dozen builds shared the machine; on 16 free cores
+        // their quick tiers finish in a few seconds, so the seeded/random streams of the
+        // quick tier are scaled up per property (never beyond the thorough size).
+        let scale: u64 = match self.prop.as_str() {
+            "C02" | "C13" | "C19" => 8,
+            "C03" => 6,
+            "C12" | "C17" => 4,
+            "C04" | "C05" | "C11" => 3,
+            "C07" | "C08" | "C09" | "C15" => 2,
+            "C14" | "C16" => 5,
+            "C18" => 10,
+            _ => 1,
+        };
+        let n = if self.quick() { q.saturating_mul(scale).min(t.max(q)) } else { t };
         match self.profile {
             Profile::Dbg => (n / dbg_div.max(1)).max(1),
             Profile::Rel => n,
